@@ -138,11 +138,47 @@ def execute(case):
     return {"ok": not fails, "failures": fails, "outcome": "ok" if not fails else fails[0]["sig"]["kind"], "nontrivial": True, "n_vars": n_vars, "n_attrs": n_attrs, "n_sel": n_sel}
 
 
+def execute_large(case):
+    """declared vs loaded shape / dtype of selections on realistically sized images (size-dependent read paths)"""
+    tc, L, P, rpc = case["type"], case["L"], case["P"], case["rpc"]
+    rng = np.random.default_rng(L)
+    word = ">u2" if tc == "IU2" else ">u4"
+    m = rng.integers(0, 2**16 if tc == "IU2" else 2**30, size=(L, P if tc == "IU2" else 2 * P), dtype="uint16" if tc == "IU2" else "uint32").astype(word)
+    spec = synth.product_spec("1.1" if tc == "C*8" else "1.5", images=[synth.image_spec("HH", None, L, P, tc, samples=[m[k].tobytes() for k in range(L)])])
+    files, _ = synth.build(spec)
+    fails, n = [], 0
+    with harness.Product(files, "mcfs") as prod:
+        tree = prod.open(**({"records_per_chunk": rpc} if rpc else {}))
+        da = tree["imagery/HH/data"]
+        want_dtype = np.dtype("uint16" if tc == "IU2" else "complex64")
+        sels = [("full", slice(None)), ("first half", slice(0, L // 2)), ("misaligned bulk", slice(min(50, L // 3), L - min(50, L // 3))), ("line", L // 2), ("every 3rd", slice(None, None, 3)), ("last 3", slice(L - 3, None)), ("all but the first", slice(1, None)), ("empty", slice(5, 5)), ("backwards", slice(None, None, -1))]
+        for label, sel in sels:
+            lazy = da.isel(rows=sel)
+            dshape, ddtype = tuple(lazy.shape), lazy.dtype
+            exp_shape = np.empty((L, 0))[sel].shape[:-1] + (P,)
+            try:
+                vals = np.asarray(lazy.values)
+            except Exception as e:
+                fails.append({"sig": {"kind": "large-unloadable", "sel": label}, "detail": f"{tc} {L}x{P} rpc={rpc or 'default'} '{label}': declared {ddtype}{dshape}, loading raises {type(e).__name__}: {str(e)[:80]}", "case": {**case, "fn": "execute_large"}})
+                continue
+            n += 1
+            if vals.shape != dshape or dshape != exp_shape or vals.dtype != ddtype or ddtype != want_dtype:
+                fails.append({"sig": {"kind": "large-declared-vs-loaded", "sel": label}, "detail": f"{tc} {L}x{P} rpc={rpc or 'default'} '{label}': declared {ddtype}{dshape}, loaded {vals.dtype}{vals.shape}, header says {exp_shape}", "case": {**case, "fn": "execute_large"}})
+        try:
+            tree.nbytes
+        except Exception as e:
+            fails.append({"sig": {"kind": "large-nbytes"}, "detail": f"tree.nbytes raises {type(e).__name__}", "case": {**case, "fn": "execute_large"}})
+    return {"ok": not fails, "failures": fails[:3], "outcome": "large-ok" if not fails else fails[0]["sig"]["kind"], "nontrivial": True, "n_sel": n}
+
+
+LARGE = [("IU2", 1300, 40000, 64), ("IU2", 1300, 40000, None), ("C*8", 1200, 2000, 64), ("C*8", 1200, 2000, None), ("IU2", 5120, 4, None), ("IU2", 4096, 3, 4096), ("IU2", 2500, 8, 100), ("C*8", 300, 40000, 10)]
+
+
 def run(res, tier, seed):
     res.rule = (
         "levels {1.1,1.5,3.1} x map projection {0,1} x {1,2,3} images + per level: 4 extreme point/channel counts, all nullable leader fields blank, optional header"
         " fields blank, every 32-bit line field at 2^32-1; in each tree every node, variable and attribute is inspected, every"
-        " variable loaded, and 90 selections per image compared before/after load. All cases are distinct products."
+        " variable loaded, and 90 selections per image compared before/after load; plus 9 selections each on 8 realistically sized images (1200..5120 lines, up to 104 MB, request sizes 0.3..96 MB). All cases are distinct products."
     )
     res.assumptions = ["allowed dtype kinds: b,i,u,f,c,M,m,U,S; NumPy scalars count as plain scalars"]
     nv = na = ns = 0
@@ -150,5 +186,8 @@ def run(res, tier, seed):
         res.record({"label": case["label"], "spec": case["spec"], "n_devs": len(case["devs"])}, out, order=idx)
         nv += out.get("n_vars", 0)
         na += out.get("n_attrs", 0)
+        ns += out.get("n_sel", 0)
+    for idx, case, out in core.pool_map(__name__, "execute_large", [{"type": tc, "L": L, "P": P, "rpc": rpc} for tc, L, P, rpc in LARGE], chunksize=1):
+        res.record({**case, "fn": "execute_large"}, out, order=10**6 + idx)
         ns += out.get("n_sel", 0)
     res.extra.update({"variables_inspected": nv, "attributes_inspected": na, "selections_compared": ns})
